@@ -184,6 +184,7 @@ type FX struct {
 	rngReads  int
 	failN     int
 	chainCache map[string]chainRes
+	jsSets    [][2]T
 	warnings  []string
 	cuts      []cutPoint
 	assertsSeen map[string]bool
